@@ -69,10 +69,15 @@ class H(BaseHTTPRequestHandler):
         with LOCK:
             c = COUNTS.setdefault(bucket, {'put': 0, 'get': 0}); c['put'] += 1
             f = FAULTS.get(bucket, {}); n = f.get('fail_put_nth')
-            fail = n is not None and (c['put'] == n if f.get('fail_put_mode', 'once') == 'once' else c['put'] >= n)
-            LOG.setdefault(bucket, []).append({'op': 'PUT', 'key': key, 'status': 500 if fail else 200, 'bytes': len(body)})
+            # 'once' fails fail_put_count (default 1) uploads in a row starting with the nth; the status decides whether the
+            # client library retries by itself (5xx) or hands the error to its caller at once (4xx)
+            cnt = f.get('fail_put_count', 1); status = f.get('fail_put_status', 500)
+            fail = n is not None and (n <= c['put'] < n + cnt if f.get('fail_put_mode', 'once') == 'once' else c['put'] >= n)
+            LOG.setdefault(bucket, []).append({'op': 'PUT', 'key': key, 'status': status if fail else 200, 'bytes': len(body)})
             if not fail: STORE.setdefault(bucket, {})[key] = body
-        if fail: return self._send(500, b'<Error><Code>InternalError</Code><Message>injected</Message></Error>')
+        if fail:
+            if status >= 500: return self._send(status, b'<Error><Code>InternalError</Code><Message>injected</Message></Error>')
+            return self._send(status, b'<Error><Code>AccessDenied</Code><Message>injected</Message></Error>')
         self._send(200, b'', extra={'ETag': '"0"'})
     def do_GET(self):
         bucket, key, q = self._split()
